@@ -4,7 +4,7 @@
 D=$1
 W=/tmp/mutconfirm
 [ -d $W ] || git -C /repo worktree add --detach $W HEAD >/dev/null 2>&1
-cd $W && git checkout -q --detach $(git -C /repo rev-parse HEAD) && git checkout -q -- . && git clean -fdq -e target
+cd $W && git checkout -q --detach ${MUT_BASE:-$(python3 -c "import json;print(json.load(open('$D/meta.json')).get('base','ab6aef5'))")} && git checkout -q -- . && git clean -fdq -e target
 CMD=$(python3 -c "import json;print(json.load(open('$D/meta.json'))['demo_cmd'])")
 export CARGO_NET_OFFLINE=true
 git apply $D/demo.diff || { echo '{"error":"demo does not apply"}' > $D/confirm.json; exit 1; }
@@ -15,5 +15,5 @@ git checkout -q -- . && git clean -fdq -e target && git apply $D/patch.diff
 cargo test --offline --workspace --no-fail-fast > $D/confirm_c.log 2>&1; C=$?
 FAILED=$(grep -c "^test .* FAILED" $D/confirm_c.log)
 git checkout -q -- . && git clean -fdq -e target
-echo "{\"demo_on_head_exit\":$A,\"demo_with_patch_exit\":$B,\"suite_with_patch_exit\":$C,\"suite_failed_tests\":$FAILED,\"head\":\"$(git -C /repo rev-parse --short HEAD)\"}" > $D/confirm.json
+echo "{\"demo_on_head_exit\":$A,\"demo_with_patch_exit\":$B,\"suite_with_patch_exit\":$C,\"suite_failed_tests\":$FAILED,\"head\":\"$(git rev-parse --short HEAD)\"}" > $D/confirm.json
 cat $D/confirm.json
